@@ -206,9 +206,25 @@ def data(i, n, es=True, pad=-1, chunks=None):
     return st
 
 
+def gen_stalled_writer(ctx, thorough):
+    """The write loop is stuck in a socket write (a large upload the server is slow to read) while the read loop has
+    control frames to hand it: PING acks, then the WINDOW_UPDATEs that a large response is owed.  None of them may be
+    lost - a server that keeps to its windows stops sending when its credit is not returned, and the caller never sees
+    the rest of the body."""
+    out = []
+    for npings in ((150, 400) if thorough else (200,)):
+        for nfr in (64, 40):      # 64 x 16384 = the client's whole window, stream and connection
+            steps = [{"op": "settings", "pairs": [[4, 4000000]]}, {"op": "wu", "req": 0, "inc": 4000000}, call(2), {"op": "stopread"},
+                     call(1, n=2000000, kind='buf'),
+                     {"op": "burst", "steps": [{"op": "ping"} for _ in range(npings)] + [resp(2), data(2, nfr * 16384, es=False, chunks=[16384] * nfr)]},
+                     {"op": "wait", "ms": 50}, {"op": "resumeread"}, {"op": "wait", "ms": 50}, data(2, 1000, es=True), resp(1, es=True), call(3), resp(3, es=True)]
+            out.append({'tag': 'stalled-writer', 'cfg': {'outCap': 65536}, 'steps': steps})
+    return out
+
+
 def gen_c02_extra(ctx, thorough):
     rng = ctx.rng
-    out = []
+    out = gen_stalled_writer(ctx, thorough)
     rf = [["server", "verif/1.0"], ["x-custom-response", "value with spaces"], ["set-cookie", "a=b; Path=/"], ["set-cookie", "c=d"], ["cache-control", "max-age=0"]]
     # response header block continued in CONTINUATION at every byte; END_STREAM on HEADERS with CONTINUATION following
     offs = range(1, 90) if thorough else sorted(rng.sample(range(1, 80), 30))
@@ -318,6 +334,26 @@ def gen_c07_extra(ctx, thorough):
                         steps.append({"op": "wu", "req": who, "inc": rng.choice([1, 100, 16384, 40000])})
                 steps += [{"op": "wu", "req": 1, "inc": 300000}, {"op": "wu", "req": 0, "inc": 300000}, resp(1, es=True)]
                 out.append({'tag': 'drain', 'cfg': {}, 'steps': steps})
+    # a WINDOW_UPDATE for one stream arriving while the write loop, in the middle of a pass over the waiting bodies, sits in
+    # a slow Read of another stream's body: the grant must not be lost, whatever the pass had already visited
+    for nx in (1, 3, 5):
+        for rep in range(2 if thorough else 1):
+            steps = [{"op": "settings", "pairs": [[4, 10]]}, {"op": "wu", "req": 0, "inc": 1000000}]
+            xs = list(range(1, nx + 1))
+            y = nx + 1
+            order = xs + [y]
+            rng.shuffle(order)
+            for i in order:
+                if i == y:
+                    c = call(y, n=600, kind='stream', chunk=100)
+                    c['body']['readms'] = 120
+                    steps.append(c)
+                else:
+                    steps.append(call(i, n=200, kind=rng.choice(['buf', 'stream'])))
+            steps += [{"op": "wu", "req": y, "inc": 300, "nowait": True}, {"op": "awaitread"}]
+            steps += [{"op": "wu", "req": i, "inc": 5000, "nowait": True} for i in xs]
+            steps += [{"op": "wait", "ms": 50}, {"op": "wu", "req": y, "inc": 5000}] + [resp(i, es=True) for i in order]
+            out.append({'tag': 'grant-during-read', 'cfg': {}, 'steps': steps})
     # SETTINGS changes while uploads are in progress: window driven negative, frame size raised and lowered
     for iw1, iw2 in ((1000, 0), (30000, 10), (65535, 1), (100, 70000)):
         steps = [{"op": "settings", "pairs": [[4, iw1]]}, call(1, n=50000, kind='buf'), call(2, n=50000, kind='stream'),
@@ -447,9 +483,19 @@ def gen_gate_goaway(ctx, thorough):
     return out
 
 
+def gen_write_storm(ctx, thorough):
+    """Callers on several goroutines hand requests to a connection whose socket starts to fail under them: the write loop
+    gives up between two of their calls.  One connection has one such moment, so the family is many short scenarios."""
+    out = []
+    for k in range(1500 if thorough else 300):
+        w = (8, 8, 16)[k % 3]
+        out.append({'tag': 'write-storm', 'cfg': {}, 'steps': [call(1), resp(1, es=True), {"op": "storm", "req": 10, "writers": w, "each": 96 // w, "n": (300, 500, 800)[(k // 3) % 3]}], 'confirm_copies': 300})
+    return out
+
+
 def gen_c12_extra(ctx, thorough):
     rng = ctx.rng
-    out = gen_gate_goaway(ctx, thorough)
+    out = gen_gate_goaway(ctx, thorough) + gen_write_storm(ctx, thorough)
     # Close while the peer has stopped reading (its GOAWAY cannot be written): what is in flight is resolved all the same
     for cap in (8, 64):
         for nreq in (1, 3):
@@ -620,12 +666,13 @@ def gen_c20_extra(ctx, thorough):
 
 
 FAM = {
-    'C02': dict(cfg=('H2Client_c02_q.cfg', 'H2Client_c02_t.cfg'), budget=(700, 6000), unit=1, hcfg={}, extra=gen_c02_extra, props={'C02', 'C20:well-formed-response-rejected', 'C12:success-without-complete-response'}),
+    'C02': dict(cfg=('H2Client_c02_q.cfg', 'H2Client_c02_t.cfg'), budget=(700, 6000), unit=1, hcfg={}, extra=gen_c02_extra, props={'C02', 'C20:well-formed-response-rejected', 'C12:success-without-complete-response',
+                       'C14:connection-credit-not-returned', 'C14:stream-credit-not-returned'}),
     'C07': dict(cfg=('H2Client_c07_q.cfg', 'H2Client_c07_t.cfg'), budget=(700, 6000), unit=13107, hcfg={'srviw': 26214}, extra=gen_c07_extra, props={'C07'}),
     'C11': dict(cfg=('H2Client_c11_q.cfg', 'H2Client_c11_t.cfg'), budget=(700, 6000), unit=1, hcfg={}, extra=gen_c11_extra, props={'C11'}),
     'C12': dict(cfg=('H2Client_c12_q.cfg', 'H2Client_c12_t.cfg'), budget=(700, 6000), unit=1, hcfg={}, extra=gen_c12_extra, props={'C12'}),
 }
-EXTRA_ONLY = {'C14': (lambda ctx, th: gen_c14_extra(ctx, th) + gen_c14_late(ctx, th), {'C14'}), 'C18': (gen_c18_extra, {'C18', 'C02:request-block-undecodable'}), 'C20': (gen_c20_extra, {'C20'})}
+EXTRA_ONLY = {'C14': (lambda ctx, th: gen_c14_extra(ctx, th) + gen_c14_late(ctx, th) + gen_stalled_writer(ctx, th), {'C14'}), 'C18': (gen_c18_extra, {'C18', 'C02:request-block-undecodable'}), 'C20': (gen_c20_extra, {'C20'})}
 
 
 def build(ctx, pid):
